@@ -256,7 +256,9 @@ var HostileStrings = []string{"", "a", "\"", "'", "\\", "a\"b", "it's", "a\\b", 
 	// bytes that are not valid UTF-8: the printer renders them as \xNN escapes, which denote single bytes
 	"\xff", "caf\xe9", "\xc3\x28", "a\x80b",
 	// texts that read like operators (translations that work on text)
-	" == ", "a != b", " && "}
+	" == ", "a != b", " && ",
+	// characters U+0080..U+00FF next to characters that are written as escapes
+	"Caf\u00e9 \"Zo\u00eb\"", "M\u00e1laga\nEspa\u00f1a", "25\u00b0C \\ 77\u00b0F", "a\u00a0b", "\u00ff\t"}
 
 var smallFloats = []float64{0, 1, 2, 3, 0.5, 1.5, 2.5, -1, -0.5, 4, 0.25}
 
